@@ -586,7 +586,7 @@ pub fn run(r: &mut Report) {
     let (shard, nshards) = shard();
     let prev = if r.rule.is_empty() { String::new() } else { format!("{}; PLUS ", r.rule) };
     r.rule = prev + "import cases = (local criteria table, 1-2 raw peer files with their own criteria tables incl. unparseable / unknown-criteria / non-importable entries, criteria-map incl. built-in overrides, exclude list, lock); non-trivial = some peer entry uses a peer criterion that the criteria-map maps; distinct by hash of the encoded case";
-    let n = if r.thorough() { 24000 } else { 3000 } / nshards;
+    let n = if r.thorough() { 32000 } else { 9000 } / nshards;
     let mut rng = Rng::new(r.seed.wrapping_add(shard.wrapping_mul(6700417)) ^ 0x1234);
     if shard == 0 {
         for (tag, c) in corpus(&r.prop) {
